@@ -499,7 +499,7 @@ impl MsGen<'_> {
         (self.keyf)(self.nkeys)
     }
     fn num(&mut self, older: bool) -> u32 {
-        let v: &[u32] = if older { &[1, 2, 144, 1008, 65535, 4194305, 4259839] } else { &[1, 100, 499999999, 500000000, 1700000000, 2147483647] };
+        let v: &[u32] = if older { &OLDER_VALUES } else { &AFTER_VALUES };
         *self.r.pick(v)
     }
     fn hash(&mut self) -> G {
@@ -1140,8 +1140,8 @@ fn gen_policy(r: &mut Rng, d: u32, concrete: bool, n: &mut u32) -> String {
     if leaf {
         return match r.below(9) {
             0 | 1 | 2 => format!("pk(K{})", n),
-            3 => format!("after({})", r.pick(&[1u32, 100, 499999999, 500000000, 2000000000])),
-            4 => format!("older({})", r.pick(&[1u32, 144, 65535, 4194305])),
+            3 => format!("after({})", r.pick(&AFTER_VALUES)),
+            4 => format!("older({})", r.pick(&OLDER_VALUES)),
             5 => format!("sha256(H{})", n),
             6 => format!("hash160(H{})", n),
             7 => format!("{}(H{})", r.pick(&["hash256", "ripemd160"]), n),
@@ -1255,7 +1255,7 @@ fn wallet_template_cases(rep: &mut Report, r: &mut Rng, n: usize) {
             3 => format!("wsh(sortedmulti({},{}))", 1 + r.below(nk), ks.join(",")),
             4 => {
                 if nk >= 2 {
-                    format!("wsh(or_d(pk({}),and_v(v:pkh({}),older({}))))", ks[0], ks[1], r.pick(&[1u32, 144, 65535]))
+                    format!("wsh(or_d(pk({}),and_v(v:pkh({}),older({}))))", ks[0], ks[1], r.pick(&OLDER_VALUES))
                 } else {
                     format!("wsh(and_v(v:pk({}),older(10)))", ks[0])
                 }
@@ -1563,6 +1563,126 @@ fn deep_tr_cases(rep: &mut Report) {
     }
 }
 
+
+// ------------------------------------------------------------------------------------------
+// lock-time values: relative locks with bits BIP 68 ignores (16-21, 23-30) and the absolute
+// boundaries.  Used by every random stream and, one by one, by the directed cases below.
+pub const OLDER_VALUES: [u32; 13] =
+    [1, 2, 144, 1008, 65535, 4194305, 4259839, 65536, 65541, 131072 | 7, 0x7fbf0000, 0x400000 | 0x10000 | 3, 0x7fffffff];
+pub const AFTER_VALUES: [u32; 6] = [1, 100, 499999999, 500000000, 1700000000, 2147483647];
+
+/// One directed text: parse, compare with the meaning the harness computed from the text,
+/// print(parse(s)) = s, parse(print(x)) = x, second print.  `parse` returns (dump, printed).
+fn directed_text(rep: &mut Report, kind: &str, s0: &str, want: &str, parse: &dyn Fn(&str) -> Option<Result<(String, String), String>>) {
+    let key = |stage: &str| format!("rt:lock:{}", stage);
+    match parse(s0) {
+        None => rep.fail(&key("panic"), &format!("parser panics ({})", kind), s0),
+        Some(Err(e)) => {
+            rep.count(&format!("locktime/{}", kind), false);
+            rep.h(format!("lock-reject/{}/{}", kind, e.chars().filter(|c| !c.is_ascii_digit()).take(40).collect::<String>().replace(' ', "_")));
+        }
+        Some(Ok((dx, s1))) => {
+            rep.count(&format!("locktime/{}", kind), true);
+            if dx != want {
+                rep.fail(&key("meaning"), &format!("parsed object {} is not what the text means {} ({})", dx, want, kind), s0);
+            }
+            let body = s1.rsplit_once('#').map(|p| p.0).unwrap_or(&s1);
+            if body != s0 {
+                rep.fail(&key("reprint"), &format!("print(parse(s)) = {} differs from s ({})", body, kind), s0);
+            }
+            match parse(&s1) {
+                None => rep.fail(&key("panic"), &format!("parser panics on printed text ({})", kind), &s1),
+                Some(Err(e)) => rep.fail(&key("reparse"), &format!("printed text {} does not parse: {} ({})", s1, e, kind), s0),
+                Some(Ok((dy, s2))) => {
+                    if dy != dx {
+                        rep.fail(&key("dump"), &format!("parse(print(x)) = {} differs from x = {} ({})", dy, dx, kind), s0);
+                    }
+                    if s2 != s1 {
+                        rep.fail(&key("fixpoint"), &format!("second print {} differs from {} ({})", s2, s1, kind), s0);
+                    }
+                }
+            }
+        }
+    }
+}
+
+fn ms_parse<Ctx: ScriptContext>(s: &str) -> Option<Result<(String, String), String>> {
+    guarded(|| {
+        Miniscript::<String, Ctx>::from_str_with_validation_params(s, &insane_params::<Ctx>())
+            .map(|x| (dump_ms(&x, &|k: &String| k.clone()), x.to_string()))
+            .map_err(|e| e.to_string())
+    })
+}
+
+fn locktime_cases(rep: &mut Report, pool: &KeyPool) {
+    let mut vals: Vec<(&str, u32)> = OLDER_VALUES.iter().map(|v| ("older", *v)).collect();
+    vals.extend(AFTER_VALUES.iter().map(|v| ("after", *v)));
+    let xk = format!("{}/<0;1>/*", pool.xpubs[0]);
+    let kd = DescriptorPublicKey::from_str(&xk).map(|k| dump_dpk(&k)).unwrap_or_default();
+    let xo = pool.xonly[0].clone();
+    let xod = DescriptorPublicKey::from_str(&xo).map(|k| dump_dpk(&k)).unwrap_or_default();
+    for (name, v) in vals {
+        let lock = format!("{}({})", name, v);
+        let lockd = format!("{}({})", if name == "older" { "Older" } else { "After" }, v);
+        rep.h(format!("lock-value/{}", lock));
+        // miniscript, four contexts: the bare lock and a signed conjunction
+        for (text, want) in [
+            (lock.clone(), lockd.clone()),
+            (format!("and_v(v:pk(K1),{})", lock), format!("AndV(Verify(Check(PkK(K1))),{})", lockd)),
+            (format!("andor(pk(K1),{},pk(K2))", lock), format!("AndOr(Check(PkK(K1)),{},Check(PkK(K2)))", lockd)),
+        ] {
+            directed_text(rep, "miniscript-bare", &text, &want, &ms_parse::<BareCtx>);
+            directed_text(rep, "miniscript-legacy", &text, &want, &ms_parse::<Legacy>);
+            directed_text(rep, "miniscript-segwitv0", &text, &want, &ms_parse::<Segwitv0>);
+            directed_text(rep, "miniscript-tap", &text, &want, &ms_parse::<Tap>);
+        }
+        // descriptors over DescriptorPublicKey
+        let dparse = |s: &str| {
+            guarded(|| {
+                Descriptor::<DescriptorPublicKey>::from_str(s).map(|x| (dump_desc(&x, &|k| dump_dpk(k)), x.to_string())).map_err(|e| e.to_string())
+            })
+        };
+        let body = format!("and_v(v:pk({}),{})", xk, lock);
+        let bodyd = format!("AndV(Verify(Check(PkK({}))),{})", kd, lockd);
+        directed_text(rep, "descriptor-wsh", &format!("wsh({})", body), &format!("Wsh({})", bodyd), &dparse);
+        directed_text(rep, "descriptor-sh-wsh", &format!("sh(wsh({}))", body), &format!("Sh(Wsh({}))", bodyd), &dparse);
+        directed_text(rep, "descriptor-sh", &format!("sh({})", body), &format!("Sh(Ms({}))", bodyd), &dparse);
+        directed_text(rep, "descriptor-tr", &format!("tr({},{})", xo, body), &format!("Tr({};0:{})", xod, bodyd), &dparse);
+        // policies over String keys
+        let cparse = |s: &str| guarded(|| Concrete::<String>::from_str(s).map(|x| (dump_concrete(&x), x.to_string())).map_err(|e| e.to_string()));
+        let sparse = |s: &str| guarded(|| Semantic::<String>::from_str(s).map(|x| (dump_semantic(&x), x.to_string())).map_err(|e| e.to_string()));
+        directed_text(rep, "policy-concrete", &lock, &lockd, &cparse);
+        directed_text(rep, "policy-concrete", &format!("and(pk(K1),{})", lock), &format!("And(Key(K1),{})", lockd), &cparse);
+        directed_text(rep, "policy-concrete", &format!("or(3@pk(K1),1@{})", lock), &format!("Or(3@Key(K1),1@{})", lockd), &cparse);
+        directed_text(rep, "policy-semantic", &lock, &lockd, &sparse);
+        directed_text(rep, "policy-semantic", &format!("and(pk(K1),{})", lock), &format!("Thresh(2;Key(K1),{})", lockd), &sparse);
+        directed_text(rep, "policy-semantic", &format!("thresh(2,pk(K1),pk(K2),{})", lock), &format!("Thresh(2;Key(K1),Key(K2),{})", lockd), &sparse);
+        // wallet-policy templates (no structural access: the Debug form must contain the lock value,
+        // and the template text must come back unchanged)
+        // structural access through the public API: fill in keys and look at the descriptor
+        let keys: Vec<DescriptorPublicKey> = pool.xpubs[..2].iter().filter_map(|k| DescriptorPublicKey::from_str(k).ok()).collect();
+        let wparse = |s: &str| {
+            guarded(|| {
+                WalletPolicy::from_str(s)
+                    .map(|x| {
+                        let nk = if s.contains("@1") { 2 } else { 1 };
+                        let mut y = x.clone();
+                        let dd = match y.set_key_info(&keys[..nk]).and_then(|_| y.into_descriptor()) {
+                            Ok(d) => dump_desc(&d, &|_k| "K".to_string()),
+                            Err(e) => format!("into_descriptor failed: {:?}", e),
+                        };
+                        let has = dd.contains(&lockd);
+                        (format!("template[{} {}]", lock, if has { "present".to_string() } else { format!("ABSENT from {}", dd) }), x.to_string())
+                    })
+                    .map_err(|e| format!("{:?}", e))
+            })
+        };
+        let want_w = format!("template[{} present]", lock);
+        directed_text(rep, "wallet-policy", &format!("wsh(and_v(v:pk(@0/**),{}))", lock), &want_w, &wparse);
+        directed_text(rep, "wallet-policy", &format!("tr(@0/**,and_v(v:pk(@1/<2;3>/*),{}))", lock), &want_w, &wparse);
+    }
+}
+
 // ------------------------------------------------------------------------------------------
 pub fn run(seed: u64, tier: &str, replay: Option<&str>) {
     let mut rep = Report::new();
@@ -1601,6 +1721,7 @@ pub fn run(seed: u64, tier: &str, replay: Option<&str>) {
     wallet_template_cases(&mut rep, &mut r, 300 * scale);
     decoded_cases(&mut rep, &mut r, &pool, 300 * scale);
     deep_tr_cases(&mut rep);
+    locktime_cases(&mut rep, &pool);
     for (k, (n, ok)) in &rep.counts {
         println!("RT kind={} generated={} accepted={}", k, n, ok);
     }
